@@ -34,6 +34,14 @@ def one(sid):
             r0 = sh(['/venv/bin/python', demos[0]], env=dict(os.environ, PYTHONPATH='/repo'), cwd=d)
             r1 = sh(['/venv/bin/python', demos[0]], env=dict(os.environ, PYTHONPATH=d), cwd=d)
             demo_ok = (r0.returncode == 0 and r1.returncode != 0)
+            if r0.returncode == 0 and r1.returncode == 0:
+                # the seeded change no longer alters behaviour on the current /repo (a later repair removed the mechanism it relied on):
+                # by the seed criteria themselves (demo must fail with the change) it is not a regression of this tree any more
+                meta['neutralised_on_current_repo'] = True
+                meta['demo_still_discriminates'] = False
+                json.dump(meta, open(mp, 'w'), indent=1)
+                return sid, prop, 'NEUTRALISED (demo passes with the change applied to the current /repo)', 0
+            meta.pop('neutralised_on_current_repo', None)
         env = dict(os.environ, ROCKIT_SRC=d, RV_REPLAY_DIR=os.path.join(d, 'replay'), RV_EVIDENCE_DIR=os.path.join(d, 'evidence'), RV_INSTANCE_TIMEOUT='45')
         verdict, nv = 'MISSED', 0
         for c in (meta.get('caught_by') or [prop]):
